@@ -1,1 +1,124 @@
+import Proofs.Faithful
 import Model.Diff.Text
+/-!
+# C04 — every reported entry is backed by the inputs (default alignment mode)
+
+Model: `Model/Diff/Ordered.lean`; resolution = `Model/Diff/Resolve.lean` (`follow` = what `extract`
+does with the parsed path, C09).  The theorems hold for **every** alignment oracle `al` (valid or
+not: the index bookkeeping `i + t1_from_index`, `i + t2_from_index` is right for any opcode list),
+both alignment modes, every threshold, whichever of the two passes wins, any size and nesting.
+-/
+namespace Diff
+open Py
+
+/-- Before the add/remove fold: every non-set entry of the diff of two well-formed values extends
+the root steps, its t1 is the object the t1-side params lead to in `a` and its t2 the object the
+t2-side params lead to in `b` — changed values and types, added / removed dictionary and iterable
+items, moved items alike. -/
+theorem C04_faithful (cfg : DCfg) (al : Align) (hashOf : PyVal → String) (a b : PyVal)
+    (ha : wf a = true) (hb : wf b = true) :
+    ∀ e ∈ keepReported cfg (diffV cfg al hashOf [] a b).tree, isSetCat e.1 = false → Backed a b [] e := by
+  intro e he hns
+  exact diffV_backed cfg al hashOf a b [] ha hb e (List.mem_filter.1 he).1 hns
+
+/-- set items are members of the respective set (they have no path of their own) -/
+theorem C04_set_items (hashOf : PyVal → String) (steps : List Step) (xs ys : List PyVal) :
+    ∀ e ∈ diffSet hashOf steps xs ys,
+      (e.1 = .setAdded ∧ ∃ y ∈ ys, e.2.t2 = some y ∧ hashOf y ∉ xs.map hashOf) ∨
+      (e.1 = .setRemoved ∧ ∃ x ∈ xs, e.2.t1 = some x ∧ hashOf x ∉ ys.map hashOf) := by
+  intro e he
+  simp only [diffSet, List.mem_append, List.mem_map, List.mem_filter] at he
+  rcases he with ⟨y, ⟨hy, hn⟩, rfl⟩ | ⟨x, ⟨hx, hn⟩, rfl⟩
+  · left; exact ⟨rfl, y, hy, rfl, by simpa using hn⟩
+  · right; exact ⟨rfl, x, hx, rfl, by simpa using hn⟩
+
+/-- The fold of an added and a removed item into `values_changed`: every entry of the final tree is
+either an entry of the unfolded tree, or a fold whose t1 and steps come from a removed entry and whose
+t2 comes from an added entry that renders to the **same path string** — so the reported path resolves
+in t1 to the old value and in t2 to the new value. -/
+theorem C04_merged (t : Tree) : ∀ e ∈ mutualAddRemoves t,
+    e ∈ t ∨ ∃ r ∈ t, ∃ ad ∈ t, r.1 = .iterRemoved ∧ ad.1 = .iterAdded ∧ e.1 = .valuesChanged ∧
+      e.2.steps = r.2.steps ∧ e.2.t1 = r.2.t1 ∧ e.2.t2 = ad.2.t2 ∧
+      pathStr ad.2.steps false = pathStr r.2.steps false := by
+  intro e he
+  simp only [mutualAddRemoves, List.mem_append, List.mem_filter, List.mem_filterMap] at he
+  rcases he with ⟨he, _⟩ | ⟨r, ⟨hr, hrc⟩, hsome⟩
+  · exact Or.inl he
+  · split at hsome
+    · split at hsome
+      · rename_i ad hfind
+        simp at hsome; subst hsome
+        have hadm := List.mem_of_find?_eq_some hfind
+        have hpath := List.find?_some hfind
+        simp only [List.mem_filter] at hadm
+        right
+        refine ⟨r, hr, ad, hadm.1, by simpa using hrc, by simpa using hadm.2, rfl, rfl, rfl, rfl, by simpa using hpath⟩
+      · cases hsome
+    · cases hsome
+
+/-- a changed leaf really differs: different text, or numerically unequal numbers -/
+theorem C04_leaf_differs (steps : List Step) (a b : PyVal) :
+    ∀ e ∈ leafDiff steps a b, e.1 = .valuesChanged ∧ e.2.t1 = some a ∧ e.2.t2 = some b ∧
+      ((∃ s t, strText a = some s ∧ strText b = some t ∧ s ≠ t) ∨ numEq a b = false) := by
+  intro e he
+  unfold leafDiff at he
+  split at he
+  · split at he <;> simp at he
+    rename_i hne; subst he
+    exact ⟨rfl, rfl, rfl, Or.inl ⟨_, _, rfl, rfl, by simpa using hne⟩⟩
+  · split at he <;> simp at he
+    rename_i hne; subst he
+    exact ⟨rfl, rfl, rfl, Or.inl ⟨_, _, rfl, rfl, by simpa using hne⟩⟩
+  · simp at he
+  · split at he <;> simp at he
+    rename_i hne
+    subst he
+    exact ⟨rfl, rfl, rfl, Or.inr (by simpa using hne)⟩
+
+/-- the difflib alignment of the F15 witness (a valid alignment: what `get_opcodes()` returns) -/
+def f15Align : Align := fun _ _ =>
+  [⟨"equal", 0, 3, 0, 3⟩, ⟨"insert", 3, 3, 3, 5⟩, ⟨"equal", 3, 4, 5, 6⟩, ⟨"delete", 4, 5, 6, 6⟩, ⟨"equal", 5, 7, 6, 8⟩]
+
+/-- if the unfolded tree has a removed and an added iterable item that render to the same path, the
+final tree contains their fold: a `values_changed` from the removed item's value to the added item's -/
+theorem C04_fold_present (t : Tree) (r ad : Cat × Level) (hr : r ∈ t) (ha : ad ∈ t) (hrc : r.1 = .iterRemoved)
+    (hac : ad.1 = .iterAdded) (hp : pathStr ad.2.steps false = pathStr r.2.steps false)
+    (hsome : (pathStr r.2.steps false).isSome = true) :
+    ∃ e ∈ mutualAddRemoves t, e.1 = .valuesChanged ∧ e.2.t1 = r.2.t1 ∧ ∃ ad' ∈ t, ad'.1 = .iterAdded ∧
+      pathStr ad'.2.steps false = pathStr r.2.steps false ∧ e.2.t2 = ad'.2.t2 := by
+  have h2 : (t.filter (fun e => e.1 == Cat.iterAdded)).any (fun e => pathStr e.2.steps false == pathStr r.2.steps false) = true :=
+    List.any_eq_true.2 ⟨ad, List.mem_filter.2 ⟨ha, by simp [hac]⟩, by simp [hp]⟩
+  have h3 : (t.filter (fun e => e.1 == Cat.iterRemoved)).any (fun e => pathStr e.2.steps false == pathStr r.2.steps false) = true :=
+    List.any_eq_true.2 ⟨r, List.mem_filter.2 ⟨hr, by simp [hrc]⟩, by simp⟩
+  cases hfd : (t.filter (fun e => e.1 == Cat.iterAdded)).find? (fun a => pathStr a.2.steps false == pathStr r.2.steps false) with
+  | none =>
+    have := List.find?_eq_none.1 hfd ad (List.mem_filter.2 ⟨ha, by simp [hac]⟩)
+    simp [hp] at this
+  | some ad' =>
+    have hadm := List.mem_of_find?_eq_some hfd
+    have hadp := List.find?_some hfd
+    simp only [List.mem_filter] at hadm
+    refine ⟨(Cat.valuesChanged, { r.2 with t2 := ad'.2.t2 }), ?_, rfl, rfl, ad', hadm.1, by simpa using hadm.2, by simpa using hadp, rfl⟩
+    simp only [mutualAddRemoves, List.mem_append, List.mem_filterMap, List.mem_filter]
+    right
+    refine ⟨r, ⟨hr, by simp [hrc]⟩, ?_⟩
+    simp only [hsome, h2, h3, Bool.and_self, ↓reduceIte, hfd]
+
+set_option maxRecDepth 4000 in
+/-- **Negative witness (finding F15).** `[0,'a','a',2,'',0,2]` vs `[0,'a','a','a','',2,0,2]`: the
+difflib pass wins (3 entries against 4); its insert puts `''` at t2 index 4 and its delete removes
+`''` at t1 index 4.  Both entries render to `root[4]`, so by `C04_fold_present` they are folded into
+a `values_changed` whose old and new value are both `''`. -/
+theorem C04_N_fold_equal :
+    let t := (diffV {} f15Align (fun _ => "") []
+        (.list [.int 0, .str "a", .str "a", .int 2, .str "", .int 0, .int 2])
+        (.list [.int 0, .str "a", .str "a", .str "a", .str "", .int 2, .int 0, .int 2])).tree
+    t.any (fun e => e.1 == Cat.iterRemoved && (e.2.steps.map (fun s => (s.p1.any (strictEq · (.int 4)), s.p2.isNone))) == [(true, true)]
+            && e.2.t1.any (strictEq · (.str ""))) = true ∧
+    t.any (fun e => e.1 == Cat.iterAdded && (e.2.steps.map (fun s => (s.p2.any (strictEq · (.int 4)), s.p1.isNone))) == [(true, true)]
+            && e.2.t2.any (strictEq · (.str ""))) = true := by
+  constructor <;>
+  simp [diffV, iterInOrder, f15Align, opcodeEntries, keepReported, skipSteps, skipPath, pairBasic, leafDiff, isBasic,
+    removedLevel, addedLevel, pyEq, numEq, numOf, typeName, List.zipIdx, pow10, strictEq]
+
+end Diff
